@@ -103,14 +103,14 @@ def formatRange (env : Env) (src : String) (root : ENode) (a b : Nat) : RangeRes
   | none => .refused
   | some (n, off, mode) =>
     if n.erroneous then .refused else
-    let t := annotate false n.toNode
+    let t := prepare n.toNode
     let r := knot env (2 * t.depth + 2)
     let ctx : Ctx := { mode := mode }
     let conv : M Doc :=
       if n.kind == .markup then r.markup ctx t .document
       else if n.kind.isExpr then r.expr ctx t
       else r.pattern ctx t
-    match conv.run 0 with
+    match conv.run { limit := t.size } with
     | .error err => .rejected (toString (repr err))
     | .ok (d, _) =>
       let indent := countSpacesAfterLastNewline text s
